@@ -645,6 +645,17 @@ func execTwin(cfg *Cfg, o *harness.Outcome) {
 	env.Clock.OnSleep = func(d time.Duration) { waited += d }
 	perRes := len(cfg.Others)%2 == 1
 	yFirst := cfg.P2%2 == 0
+	variant := (cfg.P1 + cfg.P2 + len(cfg.Others)) % 3 // 0: Y has its own ID; 1: Y has no ID; 2: see stolen below
+	if variant == 2 && cfg.Kind == kStandalone {
+		twinStolen(cfg, o, perRes, yFirst)
+		return
+	}
+	idOf := func(id string) string {
+		if id == "Y" && variant == 1 {
+			return "" // the copy carries no ID at all
+		}
+		return id
+	}
 	loadIDs := func(ids ...string) {
 		harness.Call(o, "C14.load-panicked", 0, func() {
 			switch cfg.Kind {
@@ -652,7 +663,7 @@ func execTwin(cfg *Cfg, o *harness.Outcome) {
 				var l []*flow.Rule
 				for _, id := range ids {
 					r := flowR(cfg)
-					r.ID = id
+					r.ID = idOf(id)
 					l = append(l, r)
 				}
 				if perRes {
@@ -664,7 +675,7 @@ func execTwin(cfg *Cfg, o *harness.Outcome) {
 				var l []*cb.Rule
 				for _, id := range ids {
 					r := cbR(cfg, 0)
-					r.Id = id
+					r.Id = idOf(id)
 					l = append(l, r)
 				}
 				if perRes {
@@ -676,7 +687,7 @@ func execTwin(cfg *Cfg, o *harness.Outcome) {
 				var l []*hotspot.Rule
 				for _, id := range ids {
 					r := hotR(cfg)
-					r.ID = id
+					r.ID = idOf(id)
 					l = append(l, r)
 				}
 				if perRes {
@@ -721,7 +732,56 @@ func execTwin(cfg *Cfg, o *harness.Outcome) {
 	adm, wait := request(false)
 	o.Nontrivial = true
 	if !adm || wait > 0 {
-		o.Fail("C14.unchanged-rule-took-over-state-of-removed-rule", 0, "rule X (kind %d) was driven until it held back the next request; rule Y, a field-for-field copy under its own ID, was added (listed %s X) and has never seen a request; then X was removed by a load that kept Y unchanged. The next request: admitted=%v wait=%v - Y decided it with the state of the removed rule X instead of its own", cfg.Kind, map[bool]string{true: "before", false: "after"}[yFirst], adm, wait)
+		o.Fail("C14.unchanged-rule-took-over-state-of-removed-rule", 0, "rule X (kind %d) was driven until it held back the next request; rule Y, a field-for-field copy %s, was added (listed %s X) and has never seen a request; then X was removed by a load that kept Y unchanged. The next request: admitted=%v wait=%v - Y decided it with the state of the removed rule X instead of its own", cfg.Kind, map[bool]string{true: "without ID", false: "under its own ID"}[variant == 1], map[bool]string{true: "before", false: "after"}[yFirst], adm, wait)
+	}
+}
+
+// twinStolen: rule X (private-window flow rule, threshold P1+1) has admitted P1 requests. One load lowers its
+// threshold to P1 (X keeps its ID and its statistic parameters: it keeps its window) and adds rule Y, which has the
+// fields X had before. X now holds P1 of P1: the next request must be rejected. An implementation that matches Y
+// with X's old controller by the fields alone hands X's window to Y, and the modified X starts from an empty one.
+func twinStolen(cfg *Cfg, o *harness.Outcome, perRes, yFirst bool) {
+	mk := func(id string, t int) *flow.Rule {
+		r := flowR(cfg)
+		r.ID, r.Threshold = id, float64(t)
+		return r
+	}
+	load := func(l ...*flow.Rule) {
+		harness.Call(o, "C14.load-panicked", 0, func() {
+			if perRes {
+				_, _ = flow.LoadRulesOfResource(res, l)
+			} else {
+				_, _ = flow.LoadRules(l)
+			}
+		})
+	}
+	request := func() (admitted bool) {
+		harness.Call(o, "C14.panic", 0, func() {
+			if e, _ := sentinel.Entry(res, harness.EntryOpts(1, false, []interface{}{7}, nil, nil)...); e != nil {
+				admitted = true
+				e.Exit()
+			}
+		})
+		return
+	}
+	load(mk("X", cfg.P1+1))
+	for i := 0; i < cfg.P1 && !o.Failed(); i++ {
+		if !request() {
+			return
+		}
+	}
+	if yFirst {
+		load(mk("Y", cfg.P1+1), mk("X", cfg.P1))
+	} else {
+		load(mk("X", cfg.P1), mk("Y", cfg.P1+1))
+	}
+	if o.Failed() {
+		return
+	}
+	o.Probe("twin_rule_added_then_original_removed")
+	o.Nontrivial = true
+	if request() {
+		o.Fail("C14.modified-rule-lost-statistics", 0, "rule X (threshold %d, private window) had admitted %d requests; one load lowered its threshold to %d and added rule Y with the fields X had before (listed %s X). X keeps its window (its statistic parameters are unchanged) and holds %d of %d, yet the next request was admitted: the new rule Y was given X's window", cfg.P1+1, cfg.P1, cfg.P1, map[bool]string{true: "before", false: "after"}[yFirst], cfg.P1, cfg.P1)
 	}
 }
 
